@@ -38,7 +38,8 @@ LEVEL_NOTE = ("Volume terms the library itself samples (accuracy >= 5 on nodes w
               "children, accuracy 10) are stochastic by design and not compared. Tolerances follow "
               "from float32 rounding of the moved coordinates (eps_pos = 2e-7*(1+max|coord|)): "
               "lengths 8*k*eps_pos + 2e-6*value, angles 2*eps_pos/|ray| + 1e-3 rad (skipped if "
-              "that exceeds 1 degree).")
+              "that exceeds 1 degree). Volume is compared only while the smallest radius "
+              "stays above 1e-2 (the volume code's own absolute eps = 1e-6 band, see C13).")
 RULE = ("cases = (tree recipe, motion: rotation?, translation magnitude, scale, renumbering?, by "
         "harness or by the library); non-trivial when the tree has >= 3 nodes and the motion is not "
         "the identity; distinct = distinct case descriptions")
@@ -187,7 +188,9 @@ def compare(ctx, case, A, B, refA: Ref, refB: Ref, new_of_old, s, radii_margin):
     coordmax = max(float(np.abs(refA.X).max()) * max(s, 1.0), float(np.abs(refB.X).max()))
     moved = bool(case["rotate"] or case["translate"] or s != 1 or case["by"] == "library")
     # a pure renumbering leaves every coordinate bit-identical: only summation order may differ
-    eps_pos = 2e-7 * (1 + coordmax) if moved else 0.0
+    # float32 rounding of the moved coordinates is relative to their magnitude (no absolute floor:
+    # a neuron expressed in metres is as precise, relatively, as one in microns)
+    eps_pos = 2e-7 * coordmax if moved else 0.0
     n = refA.n
     extent = float(refB.d.max()) if refB.n > 1 else 1.0
     kb = max((len(b) for b in refA.branches), default=1)
@@ -318,7 +321,7 @@ def compare(ctx, case, A, B, refA: Ref, refB: Ref, new_of_old, s, radii_margin):
         for a_, va in A["volume"].items():
             vb = B["volume"][a_]
             ctx.count("volume_compared")
-            tol = 3e-4 * abs(vb) + 64 * eps_pos * max(refB.d.max(), 1.0) ** 2 * (1 + n)
+            tol = 3e-4 * abs(vb) + 64 * eps_pos * float(refB.d.max()) ** 2 * (1 + n)
             if not np.isfinite(vb) or abs(va * s ** 3 - vb) > tol:
                 raise Mismatch("volume", f"get_volume(accuracy={a_}): {va:.8g} x s^3 = "
                                          f"{va * s ** 3:.8g} before, {vb:.8g} after (tolerance "
@@ -371,10 +374,18 @@ def _exec(ctx, case):
     radiiA = np.sort(rng.uniform(0, rmax * 1.05, 8)) if rmax > 0 else np.array([1.0])
     case["_radii_B"] = (radiiA * s).tolist()
     coordmax = max(float(np.abs(refA.X).max()) * max(s, 1.0), float(np.abs(refB.X).max()))
-    margin = 16 * 2e-7 * (1 + coordmax) + 1e-5 * rmax * s
+    margin = 16 * 2e-7 * coordmax + 1e-5 * rmax * s
     nodes = list(range(n)) if n <= 25 else sorted(set(rng.integers(0, n, 15).tolist()))
-    zero_seg = bool((refA.seglen[1:] == 0).any()) if n > 1 else False
+    zero_seg = bool(((refA.seglen == 0) & (refA.pid >= 0)).any()
+                    or ((refB.seglen == 0) & (refB.pid >= 0)).any())  # (also after the motion:
+    # a translation far beyond the neuron's extent merges neighbouring float32 positions)
     want_volume = case["volume"] and not zero_seg and n <= 80  # (a zero-length frustum has no axis)
+    if want_volume and float(spec["r"].min()) * min(s, 1.0) < 1e-2:
+        # the library's closed forms carry an absolute eps = 1e-6 (documented under C13): with
+        # radii of that order every pair of radii falls into its fast-path band, which is a
+        # stated bound of the volume code, not a pose dependence
+        ctx.skip("radii within two decades of the library's absolute eps: volume not compared")
+        want_volume = False
     soma_ok = int(spec["type"][0]) == 1
     A = measure(tree, refA, radiiA, case["steps"], nodes, want_volume, soma_ok)
     B = measure(tree2, refB, radiiA * s, case["steps"], [int(new_of_old[u]) for u in nodes],
@@ -389,7 +400,8 @@ def run(ctx):
 
     rng = ctx.rng
     tap = probes.CallTap({"sholl_get": Sholl.get})
-    geoms = ["growth", "gauss", "far", "int", "pythag", "tiny", "axis", "coincident", "quarter"]
+    geoms = ["growth", "gauss", "far", "int", "pythag", "tiny", "micro", "axis", "coincident",
+             "quarter"]
     with tap:
         for k in range(ctx.scale(640, 12800)):
             shapes = ["binary", "neuron"] if k % 3 == 0 else None
@@ -407,7 +419,7 @@ def run(ctx):
             elif m == 2:
                 case["scale"] = float(rng.choice([0.5, 2.0, 4.0, 0.25, 8.0, 0.0078125]))
             elif m == 3:
-                case["scale"] = float(rng.choice([1.7, 0.013, 0.3, 25.0, 100.0, 0.01]))
+                case["scale"] = float(rng.choice([1.7, 0.013, 0.3, 25.0, 100.0, 0.01, 1e-6, 3e-7]))
             elif m == 4:
                 case["renumber"] = True
             elif m == 5:
